@@ -2,9 +2,9 @@ SPECIFICATION Spec
 CONSTANTS
 Shapes = {21, 31, 22, 32}
 EVals = {0, 1, 3, 4}
-ThCfgs = {1, 2, 3, 4, 5, 6, 7}
-KCfgs = {1, 2, 3}
-Funs = {1, 2, 4, 5}
+ThCfgs = {1, 2, 3, 5, 7}
+KCfgs = {1, 2}
+Funs = {2, 5}
 INVARIANTS Consecutive AgreesWithDefinition CredOfDominator DominanceLemma IdenticalLemma ScaleLemma
 PROPERTIES Progress
 CHECK_DEADLOCK FALSE
